@@ -224,6 +224,18 @@ returned (unlock happens in the caller). -/
 def queryShape : List String :=
   [MPc.qLock, MPc.qCheck, MPc.qRead].filterMap MPc.stmt
 
+/-- Start-up order of the main thread when delta launches the command itself, read off the
+model: the background thread exists from the start; the main thread first publishes (its
+initial pc is `pubLock`) and only after `pubUnlock` starts querying — this covers every query,
+also the first one, made while the configuration is built. -/
+def startupShape : List String :=
+  let s0 := init ⟨0, some 0, 1⟩
+  ["start_thread"]
+    ++ (if s0.mpc = .pubLock then ["publish_known_command"] else ["queries"])
+    ++ (match stepMain ⟨0, some 0, 1⟩ { s0 with mpc := .pubUnlock } with
+        | some s1 => if s1.mpc = .qLock then ["queries"] else []
+        | none => [])
+
 /-! ### Ordering points (gates) of the hooked implementation
 
 The hooked build of process.rs has a named gate *before* every protocol statement:
@@ -411,6 +423,33 @@ def runIf (cfg : Cfg) (s : State) : List Choice → Option State
   | c :: cs =>
     match stepIf cfg s c with
     | some s' => runIf cfg s' cs
+    | none => none
+
+/-! ### Variant: the known command is published only after the first query (NOT what the code does)
+
+`run_app` with `set_calling_process` moved behind `Config::from`: the first query (made while
+the configuration is built, its answer cached) precedes the publication. -/
+
+def initLatePub (cfg : Cfg) : State := { init cfg with mpc := queryStart cfg.queries }
+
+def stepMainLatePub (cfg : Cfg) (s : State) : Option State :=
+  match s.mpc with
+  | .qUnlock =>
+      if s.src = .guessed ∧ cfg.known.isSome then
+        some { s with owner := none, qleft := s.qleft - 1, mpc := .pubLock }
+      else stepMain cfg s
+  | _ => stepMain cfg s
+
+def stepLatePub (cfg : Cfg) (s : State) : Choice → Option State
+  | .bg => stepBg cfg s
+  | .main => stepMainLatePub cfg s
+  | .spurious => stepSpurious s
+
+def runLatePub (cfg : Cfg) (s : State) : List Choice → Option State
+  | [] => some s
+  | c :: cs =>
+    match stepLatePub cfg s c with
+    | some s' => runLatePub cfg s' cs
     | none => none
 
 end Caller
